@@ -893,7 +893,14 @@ class PureScheduler:                                    # pylint: disable=r0902
         await self._feedback(None, "scheduler is shutting down...")
 
         # the done part is of no use here
-        _, pending = await asyncio.wait(tasks, timeout=timeout)
+        try:
+            _, pending = await asyncio.wait(tasks, timeout=timeout)
+        except asyncio.CancelledError:
+            # we are being cancelled ourselves, typically because the
+            # enclosing scheduler's shutdown_timeout has expired:
+            # do not leave our own shutdown tasks behind
+            await self._tidy_tasks(tasks)
+            raise
         # everything went fine
         # NOTE however: here we say that sub-schedulers that expired in timeout
         # should not impact the overall result; this is an arguable choice
